@@ -2,6 +2,7 @@ import FFVerif.Props.C12
 import FFVerif.Props.C08Inv
 import FFVerif.Props.C12Etm
 import FFVerif.Props.C10Shifts
+import FFVerif.Props.C12Frame
 import FFVerif.Pins.pinIdentityElementIndex
 import FFVerif.Pins.pinGgmExpand
 #print axioms FFVerif.C12.cm_energy_offset
@@ -37,6 +38,20 @@ import FFVerif.Pins.pinGgmExpand
 #print axioms FFVerif.C12.cumulant_trace_basis_independent
 #print axioms FFVerif.C12.infidelity_eq_neg_trace_model_cumulant
 #print axioms FFVerif.C12.etm_basis_change_from_scratch
+#print axioms FFVerif.C12.secondOrderFF_energy_offset
+#print axioms FFVerif.C12.secondOrderFF_frame_covariance
+#print axioms FFVerif.C12.frequency_shifts_energy_offset
+#print axioms FFVerif.C12.frequency_shifts_frame_independent
+#print axioms FFVerif.C12.cm_frame_covariance_array
+#print axioms FFVerif.C12.cm_energy_offset_array
+#print axioms FFVerif.C12.secondOrderFF_frame_covariance_array
+#print axioms FFVerif.C12.secondOrderFF_energy_offset_array
+#print axioms FFVerif.C12.fourElementTraces_frame_invariant
+#print axioms FFVerif.C12.commutator_traces_frame_invariant
+#print axioms FFVerif.C12.cumulant_frame_invariant
+#print axioms FFVerif.C12.cumulant_single_qubit_frame
+#print axioms FFVerif.C12.etm_frame_invariant
+#print axioms FFVerif.C12.etm_energy_offset
 #print axioms FFVerif.C10.secondOrderFF_loop_basis_change
 #print axioms FFVerif.C10.secondOrderFF_basis_change_of_mix
 #print axioms FFVerif.C10.secondOrderFF_basis_change
